@@ -25,6 +25,10 @@ type machine struct {
 	c    *engine.Chooser
 	r    [3]*reg
 	path []string
+	// ev: the evaluator of this leaf, a ShallowCopy (fresh scratch buffers and encoder buffers, shared keys and
+	// tables) of the configuration's evaluator: whatever state an evaluator carries from call to call is
+	// carried along the program of the leaf and nowhere else, so leaves are independent of exploration order
+	ev   *ckks.Evaluator
 	name string // scenario name + initial register file (leaf identity together with path)
 	// defect: set by step when the instruction is about to exercise a specific, separately reported code
 	// path; every oracle failure of that instruction is then reported under this one signature
@@ -33,7 +37,7 @@ type machine struct {
 }
 
 func newMachine(e *env, c *engine.Chooser, name string, init int) *machine {
-	m := &machine{e: e, c: c, name: name}
+	m := &machine{e: e, c: c, name: name, ev: e.ev.ShallowCopy()}
 	for i := range m.r {
 		m.r[i] = e.inits[init][i].clone()
 	}
@@ -89,7 +93,7 @@ func (m *machine) call(ins instr, f func() error) (err error, panicked bool) {
 	err, pan := uni.Try(f)
 	if pan != nil {
 		// a panic in the middle of an evaluator method can leave its scratch buffers resized: never reuse it
-		m.e.resetEvaluator()
+		m.ev = m.e.ev.ShallowCopy()
 		m.fail(m.sig(ins, "panic"), "%s at %v on state %s: panic: %v", ins.name(), m.path, m.r[0].brief(), pan)
 		return nil, true
 	}
@@ -179,7 +183,7 @@ func scalarDelta(F float64) float64 { return sqrt2 * 0.5 / F * (1 + 1e-9) }
 func (m *machine) step(ins instr) int {
 	e, c := m.e, m.c
 	nb := e.x.NB
-	ev := e.ev
+	ev := m.ev
 	a := m.r[0]
 	m.path = append(m.path, ins.name())
 	m.defect = ""
